@@ -1,14 +1,6 @@
 (* C10 for PDF417.  The column count is an oracle (the aspect-ratio heuristic of
    calcDimensions is not modelled): the statements hold for EVERY oracle. *)
-From Verif Require Import Prelude Barcode TabPdf417 Pdf417M Pdf417Spec Pdf417Props C10P.
-
-(* representable: a defined security level and few enough codewords for the largest shape *)
-Definition pdf_representable_b (data : list Z) (level : Z) : bool :=
-  (level <=? 8) &&
-  match pdf_highlevel data with
-  | Ok dw => zlength dw + 1 + pdf_ec_count level <=? pdf_max_rows * pdf_max_cols
-  | _ => false
-  end.
+From Verif Require Import Prelude Barcode TabPdf417 Pdf417M Pdf417Spec Pdf417Props ReprSpec C10P.
 
 Lemma pdf_exact data level : pdf_bytes data -> 0 <= level <= 255 ->
   (* not representable: an error, whatever the column heuristic answers *)
